@@ -56,12 +56,6 @@ Proof.
 Qed.
 
 (* ---- heap side ------------------------------------------------------------------------------------------ *)
-Definition last_closed (r : rd) : option atree :=
-  match r_stack r with
-  | [] => r_done r
-  | (_, ks) :: _ => match rev ks with k :: _ => Some k | [] => None end
-  end.
-
 Section Xml.
   Variable pm : list name -> bool.
   Variable pred : tree -> bool.
@@ -213,7 +207,35 @@ Proof.
 Qed.
 
 (* ---- NewXMLStreamReader / NewJSONStreamReader -------------------------------------------------------------------- *)
+Lemma tree_init_ok caching choose m0 ty d fs :
+  legal caching choose -> good caching m0 ->
+  exists r0 n, tree_init caching choose m0 ty d fs = Some r0 /\
+    good caching (r_m r0) /\ wf r0 /\ r_env r0 = m_F m0 /\ ext caching m0 (r_m r0) /\
+    r_stack r0 = [(n, [])] /\ r_done r0 = None /\ n ∉ addrs_f (m_F m0) /\
+    sim (mkS [mkF ty d fs []] None SNone) r0.
+Proof.
+  intros HL Hg.
+  destruct (do_create caching choose m0 (N_of_ntype ty) d fs HL Hg)
+    as (m1 & n & id & Hdo & Hg1 & HF1 & Hn & Hlog & Hnode & Hother).
+  unfold tree_init. rewrite Hdo. eexists. exists n. split; [reflexivity|]. simpl.
+  split; [exact Hg1|split; [|split; [reflexivity|split; [eapply do_op_ext; eauto|split; [reflexivity|split; [reflexivity|split; [exact Hn|]]]]]]].
+  - unfold wf, r_forest, r_tree. simpl. exact HF1.
+  - unfold sim. simpl. split; [|split; [intros E; discriminate|reflexivity]].
+    constructor; [|constructor]. split; [|reflexivity]. unfold node_pay. simpl. rewrite Hnode. reflexivity.
+Qed.
+
 Lemma reader_init_ok caching choose m0 fs :
+  legal caching choose -> good caching m0 ->
+  exists r0, reader_init caching choose m0 fs = Some r0 /\
+    good caching (r_m r0) /\ wf r0 /\ r_env r0 = m_F m0 /\ ext caching m0 (r_m r0) /\
+    sim (mkS [mkF DocumentNode [] fs []] None SNone) r0.
+Proof.
+  intros HL Hg.
+  destruct (tree_init_ok caching choose m0 DocumentNode [] fs HL Hg) as (r0 & n & E & G & W & V & X & _ & _ & _ & S).
+  exists r0. auto 10.
+Qed.
+
+Lemma reader_init_ok_old caching choose m0 fs :
   legal caching choose -> good caching m0 ->
   exists r0, reader_init caching choose m0 fs = Some r0 /\
     good caching (r_m r0) /\ wf r0 /\ r_env r0 = m_F m0 /\ ext caching m0 (r_m r0) /\
@@ -222,7 +244,7 @@ Proof.
   intros HL Hg.
   destruct (do_create caching choose m0 (N_of_ntype DocumentNode) [] fs HL Hg)
     as (m1 & n & id & Hdo & Hg1 & HF1 & Hn & Hlog & Hnode & Hother).
-  unfold reader_init. rewrite Hdo. eexists. split; [reflexivity|]. simpl.
+  unfold reader_init, tree_init. rewrite Hdo. eexists. split; [reflexivity|]. simpl.
   split; [exact Hg1|split; [|split; [reflexivity|split; [eapply do_op_ext; eauto|]]]].
   - unfold wf, r_forest, r_tree. simpl. exact HF1.
   - unfold sim. simpl. split; [|split; [intros E; discriminate|reflexivity]].
